@@ -308,6 +308,10 @@ func randValue(r *RNG, c colKind, ext map[string][]string) string {
 	case 16:
 		nb := (c.md>>8)*8 + c.md&0xff
 		return "bit:" + hx(r.Bytes((nb+7)/8))
+	case 247: // ENUM announced under its own type code (md = pack size)
+		return fmt.Sprintf("en:%d:%d", c.md, r.U64()&(1<<(8*uint(c.md))-1))
+	case 248: // SET under its own type code (never sent by a master): the decoder hands out the md raw bytes
+		return "s:" + hx(r.Bytes(c.md))
 	case 254:
 		t := c.md >> 8
 		if t == 247 {
@@ -500,6 +504,9 @@ func genRows(r *RNG, h *hist, o histOpts, ti int, ts uint32, announce bool) *hRo
 		return vs
 	}
 	nr := r.Range(1, o.maxRows)
+	if o.maxRows >= 2 && r.Chance(1, 10) {
+		nr = r.Range(11, 24) // many rows in one event (per-event containers sized for a handful)
+	}
 	zeroWidth := func(p []bool) bool {
 		for _, x := range p {
 			if x {
@@ -629,7 +636,8 @@ func genHistory(r *RNG, o histOpts, cfg string) *hist {
 		case k < 10 && o.files:
 			fileNo++
 			// a real ROTATE event, or a master restart (STOP event, next file announced by an artificial rotate only)
-			h.units = append(h.units, hUnit{kind: r.Pickstr("rot", "rot", "rst"), file: fmt.Sprintf("bin.%06d", fileNo)})
+			// (every tenth real file name ends in 0: the name is opaque, trailing characters included)
+			h.units = append(h.units, hUnit{kind: r.Pickstr("rot", "rot", "rst"), file: fmt.Sprintf("bin.%06d", fileNo*r.Pick(1, 1, 10, 100))})
 		case o.ignorable:
 			switch r.Intn(6) {
 			case 0:
